@@ -127,7 +127,10 @@ fn child_artefacts(c: &Case) -> Option<Artefacts> {
     let cf = dir.join("case.json");
     {
         let mut f = std::fs::File::create(&cf).ok()?;
-        let _ = f.write_all(serde_json::to_string(c).ok()?.as_bytes());
+        // the child needs the text only (a deep G-AST would hit serde_json's recursion limit)
+        let mut slim = c.clone();
+        slim.prog = None;
+        let _ = f.write_all(serde_json::to_string(&slim).ok()?.as_bytes());
     }
     let exe = std::env::current_exe().ok()?;
     let out = std::process::Command::new(exe).arg("C15").arg("--hashof").arg(&cf).stderr(std::process::Stdio::null()).output().ok()?;
